@@ -63,6 +63,33 @@ impl Encoder<BytesMut> for BytesCodec {
     }
 }
 
+/// One item per received datagram for `UdpFramed`, an empty datagram included. (`BytesCodec` takes an empty buffer to
+/// mean "nothing to decode yet", so an empty datagram would never be yielded.)
+#[derive(Default)]
+pub struct DatagramCodec {
+    taken: bool,
+}
+
+impl Decoder for DatagramCodec {
+    type Item = BytesMut;
+    type Error = anyhow::Error;
+
+    fn decode(&mut self, buf: &mut BytesMut) -> Result<Option<BytesMut>> {
+        // `UdpFramed` decodes after each receive until it is told `None`: the first call takes the whole datagram
+        self.taken = !self.taken;
+        if self.taken { Ok(Some(buf.split())) } else { Ok(None) }
+    }
+}
+
+impl Encoder<BytesMut> for DatagramCodec {
+    type Error = anyhow::Error;
+
+    fn encode(&mut self, data: BytesMut, buf: &mut BytesMut) -> Result<()> {
+        buf.extend_from_slice(&data);
+        Ok(())
+    }
+}
+
 pub type DatagramPacket = (BytesMut, Address);
 
 pub struct WebSocketFramed<T, C, E, D> {
